@@ -216,8 +216,9 @@ SPHERE_CYLINDER = {
 def sphere_cylinder_contracts():
     c = dict(CONTRACTS)
     c['__no_merge__'] = True
-    for k in ('mjraw_PlaneSphere', 'mjraw_SphereSphere'):
-        c[k] = dict(CONTRACTS[k], assumed=True, assigns=['con[*]'])
+    for k in ('mjraw_PlaneSphere', 'mjraw_SphereSphere'):       # only the clauses this caller states something about (count and dist)
+        c[k] = dict(CONTRACTS[k], assumed=True, assigns=['con[*]'],
+                    ensures={n: v for n, v in CONTRACTS[k]['ensures'].items() if n.startswith(('zero_or_one', 'reported_iff', 'dist_is'))})
     c['mjc_SphereCylinder'] = SPHERE_CYLINDER
     return c
 
